@@ -294,5 +294,7 @@ class C05(Prop):
     legs = [CacheHistory(), FreshProcess()]
     assumptions = ["filters are pure functions of (link, vertex) identity and compare by function identity as memo keys",
                    "the fresh-interpreter clause is decided on the implementation only (leg freshproc and the C10 legs): the model has "
-                   "no process boundary — un-pickling preserves the per-object memo and resets only the statistics table, which is "
-                   "not part of the model state"]
+                   "no process boundary; since fix D27 a loaded copy starts with empty memos, and the statistics table is not part of the "
+                   "model state",
+                   "an unhashable filter callable is never memoised by the code (fix D25) while the model memoises under its id: the "
+                   "answers agree, only the (unobserved) memo differs"]
